@@ -19,7 +19,7 @@ BTAGS = {
     # conformance detail
     'SplitOK_ChildBlock': set(), 'SplitOK_LargestFirst': set(), 'SplitRefused_AllBlocked': set(),
     'TrimOK_LowestDensity': set(), 'SplitOK_Reset': set(), 'TrimOK_Reset': set(), 'Sample_Counters': set(),
-    'LogV_Counters': set(), 'CountersSane': set(), 'BlockSound': set(), 'SampleObj_Frame': set(),
+    'LogV_Counters': set(), 'CountersSane': set(), 'BlockSound': {'C13'}, 'SampleObj_Frame': set(),
     'NB_Counters': set(), 'NoSuchAction': set(),
 }
 
@@ -55,6 +55,8 @@ def union_jobs(seed, tier, depth, roundtrip=False, ops=None):
         ('faces', 3, 80, s + 8, 'Ellipsoid', True, 4, depth, ops, roundtrip),
         ('compact', 2, 80, s + 17, 'Ellipsoid', True, 4, depth, ops, roundtrip),
         ('onface', 3, 90, s + 18, 'UnitCubeEllipsoidMixture', True, 5, depth, ops, roundtrip),
+        ('topup', 2, 11, s + 19, 'Ellipsoid', True, 4, depth, ops, roundtrip),
+        ('topup', 3, 13, s + 20, 'UnitCubeEllipsoidMixture', True, 5, depth, ops, roundtrip),
     ]
     if tier == 'thorough':
         jobs += [
@@ -88,6 +90,8 @@ def object_specs(seed, tier):
         dict(cls='NautilusBound', kind='blob', n_dim=2, n=200, seed=s + 10, n_networks=1, pool=2),
         dict(cls='NautilusBound', kind='blob', n_dim=2, n=200, seed=s + 11, n_networks=0, periodic=[0, 1], pool=2),
         dict(cls='NautilusBound', kind='banana', n_dim=2, n=300, seed=s + 12, n_networks=2, enlarge=1.3),
+        dict(cls='NautilusBound', kind='blob', n_dim=2, n=200, seed=s + 24, n_networks=1, nnkw=dict(activation='tanh')),
+        dict(cls='NeuralBound', kind='blob', n_dim=3, n=200, seed=s + 25, n_networks=2, nnkw=dict(activation='logistic')),
     ]
     if tier == 'thorough':
         for r in range(1, 6):
